@@ -87,7 +87,7 @@ def gates(m, tier):
             'frame.py:_unmarshal_method_frame', 'frame.py:unmarshal']
     for s in common.anchored(need):
         if s + ':' not in sites:
-            out.append('no exception was born in %s' % s)
+            out.append('advisory: ' + 'no exception was born in %s' % s)
     if m.counters.get('recursion_error_set_aside', 0):
         out.append('RecursionError at nesting <= 64 (%d)'
                    % m.counters['recursion_error_set_aside'])
